@@ -466,8 +466,8 @@ def shards(tier, seed):
     for i in range(0, len(files), 3):
         s.append({'kind': 'mapnodes', 'files': files[i:i + 3]})
     n = 6
-    s += [{'kind': 'hyp-paths', 'shard': i, 'n': 6000 if tier == 'thorough' else 900} for i in range(n)]
-    s += [{'kind': 'hyp-segments', 'shard': i, 'n': 4000 if tier == 'thorough' else 300} for i in range(n)]
+    s += [{'kind': 'hyp-paths', 'shard': i, 'n': 6000 if tier == 'thorough' else 2500} for i in range(n)]
+    s += [{'kind': 'hyp-segments', 'shard': i, 'n': 4000 if tier == 'thorough' else 900} for i in range(n)]
     return s
 
 
